@@ -17,3 +17,46 @@ def grants(repo):
     lines.append("")
     lines.append("end Generated.Grants")
     return "\n".join(lines) + "\n"
+
+
+@emitter("Jose.lean")
+def jose(repo):
+    """JWS algorithm registry, unsafe HMAC key prefixes, header parameter names, key field lists."""
+    from authlib.jose import JsonWebSignature
+    from authlib.jose.rfc7518 import oct_key, rsa_key, ec_key
+    from authlib.jose.rfc8037 import okp_key
+    lines = ["namespace Generated.Jose", ""]
+    lines.append("/-- `JsonWebSignature.ALGORITHMS_REGISTRY`: (name, implementing class, hash bits, EC curve, EC coordinate octets) -/")
+    lines.append("def jwsRegistry : List (String × String × Nat × String × Nat) := [")
+    items = []
+    for name, alg in JsonWebSignature.ALGORITHMS_REGISTRY.items():
+        cls = type(alg).__name__
+        bits = 0
+        h = getattr(alg, "hash_alg", None)
+        if h is not None:
+            bits = getattr(h, "digest_size", None)
+            if bits is None:
+                bits = h().digest_size
+            bits *= 8
+        curve = getattr(alg, "curve", "") or ""
+        coord = 0
+        if curve:
+            coord = (ec_key.ECKey.DSS_CURVES[curve]().key_size + 7) // 8
+        items.append(f"  ({lean_str(name)}, {lean_str(cls)}, {bits}, {lean_str(curve)}, {coord})")
+    lines.append(",\n".join(items) + "]")
+    lines.append("")
+    lines.append("/-- `OctKey` refuses raw keys starting with one of these (asymmetric key material in text form) -/")
+    pref = getattr(oct_key, "POSSIBLE_UNSAFE_KEYS")
+    lines.append("def possibleUnsafeKeys : List (List UInt8) := [")
+    lines.append(",\n".join("  " + lean_bytes(p) for p in pref) + "]")
+    lines.append("")
+    lines.append("def registeredHeaderParameterNames : List String := " + lean_str_list(sorted(JsonWebSignature.REGISTERED_HEADER_PARAMETER_NAMES)))
+    lines.append("")
+    for nm, cls in (("rsa", rsa_key.RSAKey), ("ec", ec_key.ECKey), ("okp", okp_key.OKPKey)):
+        lines.append(f"def {nm}PublicKeyFields : List String := " + lean_str_list(list(cls.PUBLIC_KEY_FIELDS)))
+        lines.append(f"def {nm}PrivateKeyFields : List String := " + lean_str_list(list(cls.PRIVATE_KEY_FIELDS)))
+        lines.append(f"def {nm}RequiredJsonFields : List String := " + lean_str_list(list(cls.REQUIRED_JSON_FIELDS)))
+    lines.append("def octRequiredJsonFields : List String := " + lean_str_list(list(oct_key.OctKey.REQUIRED_JSON_FIELDS)))
+    lines.append("")
+    lines.append("end Generated.Jose")
+    return "\n".join(lines) + "\n"
